@@ -3,7 +3,7 @@ CONSTANTS Tokens = {"a", "b"}
           MaxLen = 3
           MaxCalcs = 4
           ResetOnFailure = TRUE
-          AsyncCopy = FALSE
-INVARIANTS DigestIsContent CleanBetweenCalls
+          AsyncCopy = TRUE
+INVARIANTS DigestIsContent
 VIEW View
 CHECK_DEADLOCK FALSE
